@@ -156,6 +156,11 @@ impl OovProviderPlugin for RegexOovProvider {
                 let match_end = input_text.ch_idx(byte_offset + m.end());
 
                 let match_length = match_end - match_start;
+                if match_length == 0 {
+                    // a pattern that can match the empty string (e.g. `[a]{0,}`) matches at every
+                    // position; a word of no characters is not a candidate
+                    return Ok(0);
+                }
 
                 match other_words.has_word(match_length as i64) {
                     HasWord::Yes => return Ok(0),
